@@ -44,6 +44,8 @@ def main():
                 results[p] = "BROKEN rc=%d\n%s" % (r.returncode, out[-1500:])
     finally:
         sh("git -C %s checkout -- ." % REPO)
+        # leave no mutated binary behind for ad-hoc scripts that use build/*/zsim directly
+        sh("cd %s && python3 build.py asan && python3 build.py plain" % HERE)
     for p in props:
         print("%s %s: %s" % (os.path.basename(os.path.dirname(patch)) or patch, p, results.get(p)))
     return 0
